@@ -236,7 +236,7 @@ func TestC20Logs(t *testing.T) {
 			drw = di.rw
 		}
 		n := rapid.IntRange(0, 30).Draw(t, "n")
-		long := rapid.IntRange(0, 9).Draw(t, "long_log") == 0 // several times the reader's 4096-byte window
+		long := rapid.IntRange(0, 7).Draw(t, "long_log") == 0 // several times the reader's 4096-byte window
 		if long {
 			n = rapid.IntRange(60, 160).Draw(t, "n_long")
 		} else if rapid.IntRange(0, 3).Draw(t, "short") > 0 && n > 6 {
